@@ -29,6 +29,8 @@ type fakeConsul struct {
 	holder   map[string]string // key -> session
 	nextID   int
 	failAll  bool // every session request answers 500 (Consul unreachable)
+	// deletedHeld counts DELETE requests on a key that a live session held
+	deletedHeld int
 	log      []string
 	ln       net.Listener
 	srv      *http.Server
@@ -155,6 +157,17 @@ func (f *fakeConsul) ServeHTTP(w http.ResponseWriter, r *http.Request) {
 			}
 			f.kv[key] = body
 			_, _ = w.Write([]byte("true"))
+		case "DELETE":
+			// Consul deletes a key whoever holds the lock on it: locks are advisory
+			if h := f.holder[key]; h != "" {
+				if _, live := f.sessions[h]; live {
+					f.log = append(f.log, "delete "+key+" while held by live session "+h)
+					f.deletedHeld++
+				}
+			}
+			delete(f.kv, key)
+			delete(f.holder, key)
+			_, _ = w.Write([]byte("true"))
 		default:
 			w.WriteHeader(405)
 		}
@@ -259,6 +272,21 @@ func consulScenarios(c *common.Ctx, r *common.Rand) error {
 	}
 	fc.mu.Unlock()
 	t0 := time.Now()
+	// the other candidate restarts right away: it finds the key free and takes it while the former holder has not
+	// noticed yet
+	other := b
+	if holder == b {
+		other = a
+	}
+	other.Stop()
+	nc, ncErr := clu.Start(other.Name, true)
+	if ncErr == nil {
+		if other == a {
+			a = nc
+		} else {
+			b = nc
+		}
+	}
 	select {
 	case <-hctx.Done():
 	case <-time.After(2 * ttl):
@@ -269,6 +297,32 @@ func consulScenarios(c *common.Ctx, r *common.Rand) error {
 		c.Violate("C08:consul:session-gone", fmt.Sprintf("%.1fs after its Consul session was invalidated (TTL %s) the node is still primary", time.Since(t0).Seconds(), ttl), rep)
 	} else if d := time.Since(t0); d > ttl/2+700*time.Millisecond {
 		c.Violate("C08:consul:session-gone-late", fmt.Sprintf("the node kept the primary role for %s after its session was invalidated; renewals run every %s", d, ttl/2), rep)
+	}
+	// a new candidate joins right after the session was lost: it finds the key free and takes it. When the former
+	// holder then cleans up its lease, that is somebody else's lock: nobody may end up primary next to the new holder
+	if ncErr == nil {
+		nodes3 := []*cluster.Node{a, b}
+		deadline := time.Now().Add(ttl + time.Second)
+		for time.Now().Before(deadline) {
+			prim := 0
+			var who []string
+			for _, nd := range nodes3 {
+				if nd.Store.IsPrimary() {
+					prim++
+					who = append(who, nd.Name)
+				}
+			}
+			c.Evaluations++
+			if prim > 1 {
+				fc.mu.Lock()
+				dh := fc.deletedHeld
+				fc.mu.Unlock()
+				c.Violate("C08:consul:two-primaries-after-session-loss", fmt.Sprintf("%v are primary at the same time after a session was lost and the other candidate restarted (lock keys deleted while a live session held them: %d)", who, dh), rep)
+				break
+			}
+			time.Sleep(5 * time.Millisecond)
+		}
+		c.Distinct("consul:join-after-session-loss")
 	}
 	// wait for a new primary, then make Consul unreachable for session calls: the primary leaves about TTL later
 	var p2 *cluster.Node
